@@ -75,7 +75,6 @@ structure SSt where
   ok : Bool := true
   why : String := ""              -- first reason for leaving the property's domain
   nestedAT : Bool := false        -- an `/ActualText` scope was opened inside another one
-  quotes : Bool := false          -- a WinAnsi string with code 0x93 or 0x94 was shown
   fontLocal : Bool := true        -- the font in force was selected by the stream being painted
   inherited : Bool := false       -- a form showed text in the font inherited from its caller
   deriving Repr
@@ -84,8 +83,7 @@ def bad (r : String) (s : SSt) : SSt := if s.ok then { s with ok := false, why :
 
 /-- bookkeeping for the listed defects: which of them the operand exercises -/
 def flagS (f : Font) (bs : List Nat) (s : SSt) : SSt :=
-  let s := if !s.fontLocal && !bs.isEmpty then { s with inherited := true } else s
-  if f == .simple && bs.any (fun b => b == 0x93 || b == 0x94) then { s with quotes := true } else s
+  if !s.fontLocal && !bs.isEmpty then { s with inherited := true } else s
 
 /-- the characters `cs` are shown: dropped inside an artifact, absorbed by an open `/ActualText`
     scope, or a run of their own -/
